@@ -9,20 +9,19 @@ namespace GoaktVerif.C46
 open GoaktVerif.Model.C45 (Val Down)
 open GoaktVerif.Model.C46
 
-/-- ghost record of a hub run: elements handled, (slot, element) pairs sent, and whether some element found no slot -/
+/-- ghost record of a hub run: elements handled, (slot, element) pairs sent, and whether streamComplete was sent to a slot -/
 structure HTrace where
   ins : List Val := []
   sent : List (Nat × Val) := []
-  dropped : Bool := false
+  completed : Bool := false
 
 def elemsTo (l : List (Nat × Down)) : List (Nat × Val) :=
   l.filterMap fun p => match p.2 with | .elem v => some (p.1, v) | _ => none
 
 def HTrace.add (t : HTrace) (ev : HEv) (o : HOut) : HTrace :=
-  match ev with
-  | .elem v => { ins := t.ins ++ [v], sent := t.sent ++ elemsTo o.toSlots,
-                 dropped := t.dropped || (elemsTo o.toSlots).isEmpty }
-  | _ => t
+  { ins := match ev with | .elem v => t.ins ++ [v] | _ => t.ins,
+    sent := t.sent ++ elemsTo o.toSlots,
+    completed := t.completed || o.toSlots.any (fun p => p.2 == Down.complete) }
 
 def hubRun (k : HubKind) : HubSt × HTrace → List HEv → HubSt × HTrace
   | st, [] => st
@@ -53,22 +52,41 @@ theorem liveSlots_allLive {s : HubSt} (h : AllLive s) : liveSlots s = List.range
 @[simp] theorem maybePull_live (k : HubKind) (s : HubSt) : (s.maybePull k).1.live = s.live := (maybePull_keeps k s).1
 @[simp] theorem maybePull_n' (k : HubKind) (s : HubSt) : (s.maybePull k).1.n = s.n := (maybePull_keeps k s).2.1
 
+theorem drain_keeps (f : Nat) (s : HubSt) :
+    (drain f s).1.live = s.live ∧ (drain f s).1.n = s.n ∧ (drain f s).1.alive = s.alive := by
+  induction f generalizing s with
+  | zero => exact ⟨rfl, rfl, rfl⟩
+  | succ f ih =>
+    simp only [drain]
+    split
+    · exact ⟨rfl, rfl, rfl⟩
+    · split
+      · exact ⟨rfl, rfl, rfl⟩
+      · rename_i c _
+        obtain ⟨h1, h2, h3⟩ := ih { s with buf := _, demand := decr s.demand c, next := (c + 1) % s.n }
+        exact ⟨h1, h2, h3⟩
+
+@[simp] theorem drain_live (s : HubSt) : s.drain.1.live = s.live := (drain_keeps _ s).1
+@[simp] theorem drain_n (s : HubSt) : s.drain.1.n = s.n := (drain_keeps _ s).2.1
+
 /-- a step that is not a slotCancel keeps every slot live and `n` unchanged -/
 theorem hubStep_keeps (k : HubKind) (s : HubSt) (ev : HEv) (hc : ∀ slot, ev = .slotCancel slot → False) :
     (hubStep k s ev).1.live = s.live ∧ (hubStep k s ev).1.n = s.n := by
   cases ev with
   | wire => exact ⟨rfl, rfl⟩
-  | slotDemand slot n => simp [hubStep]
+  | slotDemand slot n =>
+    simp only [hubStep]
+    split
+    · split <;> simp
+    · simp
   | elem v =>
     cases k with
     | broadcast => simp [hubStep]
-    | balance =>
-      simp only [hubStep]
-      split <;> simp
+    | balance => simp [hubStep]
     | partition m =>
       simp only [hubStep]
       split <;> (split <;> simp)
-  | complete => exact ⟨rfl, rfl⟩
+  | complete => simp only [hubStep]; split <;> exact ⟨rfl, rfl⟩
   | error e => exact ⟨rfl, rfl⟩
   | slotCancel slot => exact (hc slot rfl).elim
 
@@ -107,6 +125,32 @@ theorem elemsTo_map_elem (l : List Nat) (v : Val) :
   | nil => rfl
   | cons a l ih => simp [elemsTo] at ih ⊢; exact ih
 
+theorem elemsTo_complete (l : List Nat) : elemsTo (l.map fun i => (i, Down.complete)) = [] := by
+  induction l with
+  | nil => rfl
+  | cons a l ih => simpa [elemsTo] using ih
+
+theorem elemsTo_error (l : List Nat) (e : GoaktVerif.Model.C45.Err) : elemsTo (l.map fun i => (i, Down.error e)) = [] := by
+  induction l with
+  | nil => rfl
+  | cons a l ih => simpa [elemsTo] using ih
+
+/-- events other than elements leave the record of a Broadcast / Partition hub unchanged -/
+theorem add_other (k : HubKind) (hk : k ≠ .balance) (s : HubSt) (t : HTrace) (ev : HEv)
+    (he : ∀ v, ev ≠ .elem v) :
+    (t.add ev (hubStep k s ev).2).sent = t.sent ∧ (t.add ev (hubStep k s ev).2).ins = t.ins := by
+  cases ev with
+  | elem v => exact absurd rfl (he v)
+  | wire => simp [HTrace.add, hubStep, elemsTo]
+  | slotDemand slot n => simp [HTrace.add, hubStep, hk, elemsTo]
+  | complete =>
+    have : (k = HubKind.balance && !s.buf.isEmpty) = false := by simp [hk]
+    simp [HTrace.add, hubStep, this, elemsTo_complete]
+  | error e => simp [HTrace.add, hubStep, elemsTo_error]
+  | slotCancel slot =>
+    simp only [HTrace.add, hubStep]
+    split <;> simp [elemsTo]
+
 structure BcInv (n : Nat) (s : HubSt) (t : HTrace) : Prop where
   live : AllLive s
   size : s.n = n
@@ -124,10 +168,11 @@ theorem BcInv.step {n : Nat} {s : HubSt} {t : HTrace} (h : BcInv n s t) (ev : HE
       have : AllLive { s with pending := s.pending - 1 } := h.live
       rw [liveSlots_allLive this]; simp [h.size]
     simp only [HTrace.add, hubStep, hls, elemsTo_map_elem, proj_append, proj_fanout n v i hi, h.all i hi]
-  | wire => exact h.all
-  | slotDemand slot k => exact h.all
-  | complete => exact h.all
-  | error e => exact h.all
+  | wire => intro i hi; obtain ⟨h1, h2⟩ := add_other .broadcast (by simp) s t .wire (by simp); rw [h1, h2]; exact h.all i hi
+  | slotDemand slot k =>
+    intro i hi; obtain ⟨h1, h2⟩ := add_other .broadcast (by simp) s t (.slotDemand slot k) (by simp); rw [h1, h2]; exact h.all i hi
+  | complete => intro i hi; obtain ⟨h1, h2⟩ := add_other .broadcast (by simp) s t .complete (by simp); rw [h1, h2]; exact h.all i hi
+  | error e => intro i hi; obtain ⟨h1, h2⟩ := add_other .broadcast (by simp) s t (.error e) (by simp); rw [h1, h2]; exact h.all i hi
   | slotCancel slot => exact (hc slot rfl).elim
 
 /-! ### Partition: slot i is sent exactly the elements whose selector is i -/
@@ -174,13 +219,22 @@ theorem PtInv.step {n m : Nat} {s : HubSt} {t : HTrace} (h : PtInv n m s t) (ev 
         have hxi : ¬ (x.emod m).toNat = i := by omega
         simp only [h1, Bool.false_eq_true, if_false, List.filter_append, proj_append, h.all i hi]
         simp [elemsTo, proj, sel, hxi]
-  | wire => exact ⟨hl, by rw [hn, h.size], h.ints, h.all⟩
-  | slotDemand slot k => exact ⟨hl, by rw [hn, h.size], h.ints, h.all⟩
-  | complete => exact ⟨hl, by rw [hn, h.size], h.ints, h.all⟩
-  | error e => exact ⟨hl, by rw [hn, h.size], h.ints, h.all⟩
+  | wire =>
+    obtain ⟨h1, h2⟩ := add_other (.partition m) (by simp) s t .wire (by simp)
+    exact ⟨hl, by rw [hn, h.size], by rw [h2]; exact h.ints, by rw [h1, h2]; exact h.all⟩
+  | slotDemand slot k =>
+    obtain ⟨h1, h2⟩ := add_other (.partition m) (by simp) s t (.slotDemand slot k) (by simp)
+    exact ⟨hl, by rw [hn, h.size], by rw [h2]; exact h.ints, by rw [h1, h2]; exact h.all⟩
+  | complete =>
+    obtain ⟨h1, h2⟩ := add_other (.partition m) (by simp) s t .complete (by simp)
+    exact ⟨hl, by rw [hn, h.size], by rw [h2]; exact h.ints, by rw [h1, h2]; exact h.all⟩
+  | error e =>
+    obtain ⟨h1, h2⟩ := add_other (.partition m) (by simp) s t (.error e) (by simp)
+    exact ⟨hl, by rw [hn, h.size], by rw [h2]; exact h.ints, by rw [h1, h2]; exact h.all⟩
   | slotCancel slot => exact (hc slot rfl).elim
 
-/-! ### Balance: every element goes to exactly one slot — unless no slot has demand (then to none) -/
+/-! ### Balance (after fix 61853f2): every element is sent to exactly one slot, in arrival order,
+possibly later; completion is propagated only after the buffer has drained -/
 
 theorem chooseSlot_lt {s : HubSt} {c : Nat} (h : chooseSlot s = some c) : c < s.n := by
   unfold chooseSlot at h
@@ -189,48 +243,156 @@ theorem chooseSlot_lt {s : HubSt} {c : Nat} (h : chooseSlot s = some c) : c < s.
   obtain ⟨i, hi, rfl⟩ := hm
   exact Nat.mod_lt _ (by omega)
 
+/-- what `drain` sends: a prefix of the buffer, each element to one slot in range -/
+theorem drain_spec (f : Nat) (s : HubSt) :
+    (elemsTo (drain f s).2).map (·.2) ++ (drain f s).1.buf = s.buf ∧
+    (∀ p ∈ elemsTo (drain f s).2, p.1 < s.n) ∧
+    ((drain f s).2.any (fun p => p.2 == Down.complete) = false) ∧
+    (drain f s).1.upDone = s.upDone := by
+  induction f generalizing s with
+  | zero => simp [drain, elemsTo]
+  | succ f ih =>
+    simp only [drain]
+    cases hb : s.buf with
+    | nil => simp [elemsTo, hb]
+    | cons v rest =>
+      simp only
+      cases hch : chooseSlot s with
+      | none => simp [elemsTo, hb]
+      | some c =>
+        simp only
+        obtain ⟨h1, h2, h3, h4⟩ := ih { s with buf := rest, demand := decr s.demand c, next := (c + 1) % s.n }
+        have hc := chooseSlot_lt hch
+        refine ⟨?_, ?_, ?_, h4⟩
+        · simp only [elemsTo, List.filterMap_cons, List.map_cons, List.cons_append]
+          congr 1
+        · intro p hp
+          simp only [elemsTo, List.filterMap_cons, List.mem_cons] at hp
+          rcases hp with rfl | hp
+          · exact hc
+          · exact h2 p hp
+        · simp only [List.any_cons, Bool.or_eq_false_iff]
+          exact ⟨by simp, h3⟩
+
 structure BlInv (n : Nat) (s : HubSt) (t : HTrace) : Prop where
   size : s.n = n
   tags : ∀ p ∈ t.sent, p.1 < n
-  exact : t.dropped = false → t.sent.map (·.2) = t.ins
+  order : t.sent.map (·.2) ++ s.buf = t.ins
+  done : t.completed = true → s.buf = []
+  live : s.alive = true → t.completed = false
 
-theorem maybePull_n (k : HubKind) (s : HubSt) : (s.maybePull k).1.n = s.n := (maybePull_keeps k s).2.1
+theorem maybePull_buf (k : HubKind) (s : HubSt) : (s.maybePull k).1.buf = s.buf ∧ (s.maybePull k).1.n = s.n := by
+  unfold HubSt.maybePull
+  dsimp only
+  repeat' split
+  all_goals simp
 
-theorem BlInv.step {n : Nat} {s : HubSt} {t : HTrace} (h : BlInv n s t) (ev : HEv) :
+theorem any_complete_map_elem (l : List (Nat × Down)) (h : l.any (fun p => p.2 == Down.complete) = false)
+    (m : List Nat) : (l ++ m.map fun i => (i, Down.complete)).any (fun p => p.2 == Down.complete) = !m.isEmpty := by
+  rw [List.any_append, h]
+  cases m <;> simp
+
+theorem BlInv.step {n : Nat} {s : HubSt} {t : HTrace} (h : BlInv n s t) (hal : s.alive = true) (ev : HEv) :
     BlInv n (hubStep .balance s ev).1 (t.add ev (hubStep .balance s ev).2) := by
+  have ha := h.live hal
   cases ev with
+  | wire => exact ⟨h.size, by simpa [HTrace.add, hubStep, elemsTo] using h.tags,
+      by simpa [HTrace.add, hubStep, elemsTo] using h.order, by simp [HTrace.add, hubStep, ha],
+      fun _ => by simp [HTrace.add, hubStep, ha]⟩
+  | slotDemand slot k =>
+    simp only [hubStep, if_true]
+    obtain ⟨h1, h2, h3, h4⟩ := drain_spec ({ s with demand := s.demand.modify slot (· + k) } : HubSt).buf.length
+      { s with demand := s.demand.modify slot (· + k) }
+    split
+    · rename_i hfin
+      simp only [Bool.and_eq_true] at hfin
+      have hbe := List.isEmpty_iff.mp hfin.2
+      refine ⟨by simp [h.size], ?_, ?_, fun _ => hbe, fun h1 => by simp at h1⟩
+      · intro p hp
+        simp only [HTrace.add, elemsTo, List.filterMap_append, List.mem_append] at hp
+        rcases hp with hp | hp | hp
+        · exact h.tags p hp
+        · have := h2 p hp; simpa [h.size] using this
+        · rw [← elemsTo] at hp; rw [elemsTo_complete] at hp; simp at hp
+      · simp only [HTrace.add, elemsTo, List.filterMap_append, List.map_append]
+        rw [← elemsTo, ← elemsTo, elemsTo_complete]
+        simp only [List.map_nil, List.append_nil]
+        have := h.order
+        rw [List.append_assoc]
+        change List.map (·.2) t.sent ++ (List.map (·.2) (elemsTo (HubSt.drain _).2) ++ (HubSt.drain _).1.buf) = t.ins
+        unfold HubSt.drain
+        rw [h1]; exact this
+    · obtain ⟨hb, hn⟩ := maybePull_buf .balance ({ s with demand := s.demand.modify slot (· + k) } : HubSt).drain.1
+      refine ⟨by rw [hn]; simp [h.size], ?_, ?_, ?_, ?_⟩
+      rotate_left 2
+      · intro hc
+        simp only [HTrace.add, ha, Bool.false_or] at hc
+        unfold HubSt.drain at hc
+        rw [h3] at hc; simp at hc
+      · intro _
+        simp only [HTrace.add, ha, Bool.false_or]
+        unfold HubSt.drain
+        exact h3
+      · intro p hp
+        simp only [HTrace.add, List.mem_append] at hp
+        rcases hp with hp | hp
+        · exact h.tags p hp
+        · have := h2 p hp; simpa [h.size] using this
+      · simp only [HTrace.add, List.map_append, hb]
+        rw [List.append_assoc]
+        unfold HubSt.drain
+        rw [h1]; exact h.order
   | elem v =>
     simp only [hubStep]
-    cases hch : chooseSlot { s with pending := s.pending - 1 } with
-    | some c =>
-      have hcn : c < n := by have := chooseSlot_lt hch; simpa [h.size] using this
-      simp only
-      refine ⟨by rw [maybePull_n]; exact h.size, ?_, ?_⟩
-      · intro p hp
-        simp only [HTrace.add, elemsTo, List.filterMap_cons, List.filterMap_nil, List.mem_append,
-          List.mem_singleton] at hp
-        rcases hp with hp | rfl
-        · exact h.tags p hp
-        · exact hcn
-      · intro hd
-        simp only [HTrace.add, elemsTo, List.filterMap_cons, List.filterMap_nil, Bool.or_eq_false_iff] at hd
-        simp [HTrace.add, elemsTo, h.exact hd.1]
-    | none =>
-      simp only
-      refine ⟨by rw [maybePull_n]; exact h.size, ?_, ?_⟩
-      · intro p hp
-        simp only [HTrace.add, elemsTo, List.filterMap_nil, List.append_nil] at hp
-        exact h.tags p hp
-      · intro hd
-        simp [HTrace.add, elemsTo] at hd
-  | wire => exact ⟨h.size, h.tags, h.exact⟩
-  | slotDemand slot k => exact ⟨by simp only [hubStep]; rw [maybePull_n]; exact h.size, h.tags, h.exact⟩
-  | complete => exact ⟨h.size, h.tags, h.exact⟩
-  | error e => exact ⟨h.size, h.tags, h.exact⟩
+    obtain ⟨h1, h2, h3, h4⟩ := drain_spec ({ s with pending := s.pending - 1, buf := s.buf ++ [v] } : HubSt).buf.length
+      { s with pending := s.pending - 1, buf := s.buf ++ [v] }
+    obtain ⟨hb, hn⟩ := maybePull_buf .balance ({ s with pending := s.pending - 1, buf := s.buf ++ [v] } : HubSt).drain.1
+    refine ⟨by rw [hn]; simp [h.size], ?_, ?_, ?_, ?_⟩
+    rotate_left 2
+    · intro hc
+      simp only [HTrace.add, ha, Bool.false_or] at hc
+      unfold HubSt.drain at hc
+      rw [h3] at hc; simp at hc
+    · intro _
+      simp only [HTrace.add, ha, Bool.false_or]
+      unfold HubSt.drain
+      exact h3
+    · intro p hp
+      simp only [HTrace.add, List.mem_append] at hp
+      rcases hp with hp | hp
+      · exact h.tags p hp
+      · have := h2 p hp; simpa [h.size] using this
+    · simp only [HTrace.add, List.map_append, hb]
+      rw [List.append_assoc]
+      unfold HubSt.drain
+      rw [h1, ← List.append_assoc, h.order]
+  | complete =>
+    simp only [hubStep, Bool.true_and]
+    split
+    · exact ⟨h.size, by simpa [HTrace.add, elemsTo] using h.tags, by simpa [HTrace.add, elemsTo] using h.order,
+        by simp [HTrace.add, ha], fun _ => by simp [HTrace.add, ha]⟩
+    · rename_i hne
+      have hbe : s.buf = [] := by
+        cases hb : s.buf with
+        | nil => rfl
+        | cons a l => simp [hb] at hne
+      refine ⟨h.size, ?_, ?_, fun _ => hbe, fun h1 => by simp at h1⟩
+      · intro p hp; simp only [HTrace.add, elemsTo_complete, List.append_nil] at hp; exact h.tags p hp
+      · simp only [HTrace.add, elemsTo_complete, List.append_nil]; exact h.order
+  | error e =>
+    refine ⟨h.size, ?_, ?_, ?_, fun h1 => by simp [hubStep] at h1⟩
+    · intro p hp; simp only [HTrace.add, hubStep, elemsTo_error, List.append_nil] at hp; exact h.tags p hp
+    · simp only [HTrace.add, hubStep, elemsTo_error, List.append_nil]; exact h.order
+    · intro hc
+      simp only [HTrace.add, hubStep, ha, Bool.false_or, List.any_map] at hc
+      simp at hc
   | slotCancel slot =>
     simp only [hubStep]
     split
-    · exact ⟨h.size, h.tags, h.exact⟩
-    · exact ⟨by rw [maybePull_n]; exact h.size, h.tags, h.exact⟩
+    · exact ⟨h.size, by simpa [HTrace.add, elemsTo] using h.tags, by simpa [HTrace.add, elemsTo] using h.order,
+        by simp [HTrace.add, ha], fun _ => by simp [HTrace.add, ha]⟩
+    · obtain ⟨hb, hn⟩ := maybePull_buf .balance { s with live := s.live.set slot false, cancelled := s.cancelled + 1 }
+      exact ⟨by rw [hn]; exact h.size, by simpa [HTrace.add, elemsTo] using h.tags,
+        by simpa [HTrace.add, elemsTo, hb] using h.order, by simp [HTrace.add, ha], fun _ => by simp [HTrace.add, ha]⟩
 
 end GoaktVerif.C46
